@@ -61,7 +61,10 @@ def run_isolated(d, checks, tier):
 
 
 def run_one(d, checks, tier):
+    """the change is applied to /repo itself (git apply), the checks are run, /repo is restored (git checkout -- .);
+    evidence and replays of these runs go to build/mut/<id>/ so that evidence/ keeps describing the unchanged tree"""
     d = d.rstrip('/')
+    mid = os.path.basename(d)
     patch = os.path.join(ROOT, d, 'patch.diff')
     meta_p = os.path.join(ROOT, d, 'meta.json')
     meta = json.load(open(meta_p)) if os.path.exists(meta_p) else {}
@@ -70,22 +73,28 @@ def run_one(d, checks, tier):
     if not clean():
         print('refusing: /repo has local modifications')
         return 2
-    res = {'tier': tier, 'checks': {}}
+    out = os.path.join(ROOT, 'build', 'mut', mid)
+    os.makedirs(out, exist_ok=True)
+    res = {'tier': tier, 'mode': 'applied to /repo', 'head': sh(['git', '-C', REPO, 'log', '--format=%h', '-1']).stdout.strip(), 'checks': {}}
     a = sh(['git', '-C', REPO, 'apply', patch])
     if a.returncode != 0:
         print('patch does not apply:', a.stdout)
         return 2
     try:
+        env = dict(os.environ, VERIF_OUT=out)
         for c in checks:
             t = time.time()
-            r = sh([sys.executable, os.path.join(ROOT, 'verif.py'), 'check', c, '--tier', tier], cwd=ROOT)
-            sigs = [l.strip() for l in r.stdout.splitlines() if l.strip().startswith('signature:')]
-            res['checks'][c] = {'exit': r.returncode, 'wall_s': round(time.time() - t, 1), 'violations': r.stdout.count('VIOLATION property='),
-                                'signatures': sorted(set(sigs))[:12], 'tail': r.stdout.strip().splitlines()[-1:] }
-            print('%s %s: exit %d, %d violation lines, %.0fs' % (d, c, r.returncode, res['checks'][c]['violations'], time.time() - t))
+            r = sh([sys.executable, os.path.join(ROOT, 'verif.py'), 'check', c, '--tier', tier], cwd=ROOT, env=env)
+            sigs = [l.strip()[len('signature: '):] for l in r.stdout.splitlines() if l.strip().startswith('signature:')]
+            res['checks'][c] = {'exit': r.returncode, 'wall_s': round(time.time() - t, 1), 'violation_lines': r.stdout.count('VIOLATION property='),
+                                'signatures': sorted(set(sigs))[:8], 'last_line': r.stdout.strip().splitlines()[-1:]}
+            with open(os.path.join(out, 'repo_%s_%s.log' % (c, tier)), 'w') as fh:
+                fh.write(r.stdout)
+            print('%s %s: exit %d, %d violation lines, %.0fs' % (mid, c, r.returncode, res['checks'][c]['violation_lines'], time.time() - t), flush=True)
     finally:
         sh(['git', '-C', REPO, 'checkout', '--', '.'])
-    res['detected_by'] = [c for c, v in res['checks'].items() if v['exit'] == 1 and v['violations'] > 0]
+    res['detected_by'] = [c for c, v in res['checks'].items() if v['exit'] == 1 and v['violation_lines'] > 0]
+    res['repo_clean_afterwards'] = clean()
     with open(os.path.join(ROOT, d, 'result.json'), 'w') as fh:
         json.dump(res, fh, indent=1)
     return 0
